@@ -90,6 +90,23 @@ func (rd *c06Reader) step() bool {
 		rd.term = pan
 	case errors.Is(err, io.EOF):
 		rd.term = "eof"
+		// io.EOF terminates the stream: asking again gives io.EOF again, not a new pass
+		for k := 0; k < 2; k++ {
+			func() {
+				defer func() {
+					if r := recover(); r != nil {
+						rd.term = fmt.Sprintf("panic after io.EOF: %v", r)
+					}
+				}()
+				if lex, e := rd.doc.NextLexeme(); !errors.Is(e, io.EOF) && rd.term == "eof" {
+					if e != nil {
+						rd.term = "after io.EOF the next call returns the error " + e.Error()
+					} else {
+						rd.term = fmt.Sprintf("after io.EOF the next call delivers %s[%d:%d]", lex.Type().String(), lex.Begin(), lex.End())
+					}
+				}
+			}()
+		}
 	case err != nil:
 		rd.term = "error: " + err.Error()
 	default:
